@@ -13,6 +13,7 @@ import decimal
 import fractions
 import math
 import numbers
+import re
 
 ID = "C11"
 LEVEL = "exploration"
@@ -384,6 +385,11 @@ def check_attr(T, cls, d, acc, grid):
         pool = [t for t in pool if any(t in (m.enumeration(ty) or []) for ty in types)]
     elif own is None:
         acc.count("classes_without_same_named_xsd_type")
+    readings = {}
+    for text in list(pool):  # every percent / universal-measure / boolean form brings its plain-number equivalent along
+        eq = equivalent_plain_form(text)
+        if eq is not None and eq not in pool:
+            pool.append(eq)
     for text in pool:
         ok, _ = valid_for_any(types, text)
         if not ok:
@@ -399,13 +405,49 @@ def check_attr(T, cls, d, acc, grid):
         acc.case(desc=None, nontrivial=False, cls="lexical-form")
         acc.keys.add(acc_key(ident, "lex:" + text))
         try:
-            getattr(el, d["prop"])
+            got_form = getattr(el, d["prop"])
+            readings[text] = got_form
         except Exception as e:  # noqa
             if is_enum:
                 key = "unreadable-token:%s:%s" % (stname, text)
             else:
                 key = "unreadable-form:%s:%s" % (stname, lex_class(text))
             acc.violation(key, "%s=%r is schema-valid but the getter raises %s: %s" % (ident, text, type(e).__name__, e), {"T": T, "prop": d["prop"], "text": text})
+
+    # lexical alternatives of one value must read alike: 'N%' and its thousandths-of-a-percent integer, a universal measure and
+    # its EMU count, 'true' and '1' (the harness's own arithmetic says which plain number a form stands for)
+    for text, got_form in readings.items():
+        eq = equivalent_plain_form(text)
+        if eq is None or eq not in readings:
+            continue
+        a, b = got_form, readings[eq]
+        if isinstance(a, str) or isinstance(b, str):
+            continue  # a string-typed attribute: the two texts are just two strings
+        acc.count("equivalent_lexical_forms_compared")
+        same = a == b or (isinstance(a, (int, float)) and isinstance(b, (int, float)) and not isinstance(a, bool) and abs(a - b) <= 1e-9 * max(1.0, abs(a), abs(b)))
+        if not same:
+            acc.violation(
+                "lexical-alternatives-disagree:%s:%s" % (stname, lex_class(text)),
+                "%s=%r reads %r but the equivalent %r reads %r" % (ident, text, a, eq, b),
+                {"T": T, "prop": d["prop"], "text": text},
+            )
+
+
+_UM = {"mm": 36000, "cm": 360000, "in": 914400, "pt": 12700, "pc": 152400, "pi": 152400}
+
+
+def equivalent_plain_form(text):
+    """The plain-number lexical form that stands for the same value as a percent string, a universal measure or a boolean
+    word (None when `text` is none of these or the equivalent is not a whole number)."""
+    m = re.fullmatch(r"(-?[0-9]+(?:\.[0-9]+)?)%", text)
+    if m:
+        v = decimal.Decimal(m.group(1)) * 1000
+        return str(int(v)) if v == v.to_integral_value() else None
+    m = re.fullmatch(r"(-?[0-9]+(?:\.[0-9]+)?)(mm|cm|in|pt|pc|pi)", text)
+    if m:
+        v = decimal.Decimal(m.group(1)) * _UM[m.group(2)]
+        return str(int(v)) if v == v.to_integral_value() else None
+    return {"true": "1", "false": "0"}.get(text)
 
 
 BUILTIN_OF = {
